@@ -57,8 +57,13 @@ func buildChainIn(env *simx.Env, cfg simx.ChainCfg, ops []simx.MemOp) *simx.Chai
 			if !ok {
 				panic("grpc2: unknown memory kind " + cfg.Memory)
 			}
+			if cfg.DRAMQ == 1 {
+				spec.TransactionQueueSize = 2
+				spec.CommandQueueCapacity = 2
+			}
 			c := dram.MakeBuilder().WithRegistrar(env).WithSpec(spec).Build(name)
 			comp, st = c, c.Resources().Storage
+			ch.DRAM = append(ch.DRAM, c)
 		}
 		env.AssignPorts(comp, cfg.PortBuf, "Top", "Control")
 		conn.PlugIn(comp.GetPortByName("Top"))
